@@ -6,7 +6,7 @@ reference path (this.x, this._.x, this._._.x, this._root.x, this._params.k, this
 through parse, build and sizeof with keyword arguments.  Decided by trace validation against Sem/Context rules: the probe values, the
 byte lengths they select and the frames they see must be those the specification prescribes, in all three operations.
 """
-from .. import ast as A, gen, values as V, campaign, universes as U
+from .. import ast as A, gen, values as V, campaign, universes as U, tracer
 from . import common
 
 LEVEL = "model_checking"
@@ -41,11 +41,35 @@ def run(ctx):
                 except Exception:
                     pass
             camp.sizeof(prog, con, kw)
+            if kw and i % 5 == 0 and "_params" in str(prog):
+                # keyword arguments reach the context through every entry point: parse / parse_stream / parse_file, build / build_stream / build_file
+                import io, os
+                data = bytes(rng.choice([0, 1, 1, 2, 2, 3]) for _ in range(rng.randint(2, 10)))
+                i0, p0 = camp.parse(prog, con, data, 0, kw)
+                fn = os.path.join(ctx.scratch, "c07_in.bin")
+                with open(fn, "wb") as f:
+                    f.write(data)
+                for how, run in (("parse", lambda: con.parse(data, **kw)), ("parse_file", lambda: con.parse_file(fn, **kw))):
+                    ok, val, err = tracer._outcome(run)
+                    j = camp.sh.add({"k": "Opaque", "desc": "entry:" + how}, {"op": "parse", "events": [], "res": {"ok": ok, "v": V.enc(val) if ok else V.VNone(), "err": err, "p": 0, "path": []}}, kw, data, 0, None, None, "entry")
+                    camp.sh.session("C17.entry", [i0, j])
+                if p0["res"]["ok"]:
+                    try:
+                        v = V.dec(p0["res"]["v"])
+                    except Exception:
+                        v = None
+                    if v is not None:
+                        ib, b0 = camp.build(prog, con, v, b"", kw, arg=p0["res"]["v"])
+                        fo = os.path.join(ctx.scratch, "c07_out.bin")
+                        for how, run in (("build", lambda: con.build(v, **kw)), ("build_file", lambda: (con.build_file(v, fo, **kw), open(fo, "rb").read())[1])):
+                            ok, val, err = tracer._outcome(run)
+                            j = camp.sh.add({"k": "Opaque", "desc": "entry:" + how}, {"op": "build", "events": [], "res": {"ok": ok, "v": V.VBytes(val) if ok else V.VNone(), "err": err, "p": 0, "path": []}}, kw, b"", 0, p0["res"]["v"], None, "entry")
+                            camp.sh.session("C17.entry", [ib, j])
             if any(s in str(prog) for s in ("'_'", "_root", "_params", "_index")):
                 nt += 1
             camp.sh.maybe_flush()
             if i < 3:
                 ctx.sample({"program": prog, "kw": kw})
         vs = camp.validate()
-        campaign.judge(ctx, camp, vs, conformance=lambda v, m: campaign.kind_of(v) in KINDS)
+        campaign.judge(ctx, camp, vs, conformance=lambda v, m: campaign.kind_of(v) in KINDS, clauses=("C17.entry",))
         ctx.cov["distinct_nontrivial"] = nt
